@@ -347,17 +347,25 @@ def accounting_stage(ctx, cov):
     ok, out = cargo_build(ctx, ["conc"])
     if not ok:
         return
-    outs = run_conc(ctx, 8, ["cases=%d" % (120 if ctx.tier == "quick" else 3000)])
+    outs = run_conc(ctx, 8, ["cases=%d" % (120 if ctx.tier == "quick" else 3000), "memrace=%d" % (15 if ctx.tier == "quick" else 400)])
     lines = bad = moddiff = 0
+    races = {}
     for o in outs:
         if "crash" in o:
             violation(ctx, "conc harness did not finish: " + o["crash"], o["crash"], tag="crash")
             continue
         lines += len(o["ops"])
+        for k, v in o["meta"]["kinds"].items():
+            if k.startswith("memory race"):
+                races[k] = races.get(k, 0) + v
         for f in o["fails"]:
             if f["prop"] == "C13":
                 bad += 1
                 if bad <= 2:
+                    if "memory race case" in f["what"]:
+                        violation(ctx, "memory limit / accounting under free-running writers: " + f["what"],
+                                  "# re-run: harness/target/release/conc --seed %d --out <dir> cases=0 memrace=%d\n# %s\n" % (ctx.seed * 1000 + outs.index(o), 15 if ctx.tier == "quick" else 400, f["what"]), tag="memrace")
+                        continue
                     txt = open(f["replay"]).read() if os.path.exists(f["replay"]) else ""
                     violation(ctx, "memory accounting under an interleaving: " + f["what"], "# schedule (replay: ./check C07 --replay <this file>)\n" + txt, tag="acc")
         for op, im, mo in zip(o["ops"], o["impl"], o["model"]):
@@ -369,6 +377,7 @@ def accounting_stage(ctx, cov):
     ctx.log("accounting stage: %d scheduled lines, %d oracle failures, %d model differences" % (lines, bad, moddiff))
     cov["scheduled_interleaving_lines"] = lines
     cov["accounting_oracle_failures"] = bad
+    cov["memory_limit_races"] = races
 
 
 def sweep_stage(ctx, cov):
